@@ -390,6 +390,7 @@ fn close_oracle(c: &CloseCase, ctx: &mut Ctx) -> CaseResult {
 
 fn main() {
 	install_recording_signer();
+	netsim::rec::tolerate_monitor_roundtrip_tripwire();
 	let mut c = Check::new("C01", "exploration");
 	c.assume("both peers are unmodified LDK nodes; messages are delivered FIFO per direction, individually, at generated times");
 	c.assume("reference model (BOLT-2 update bookkeeping + BOLT-3 trimming/fee/anchor rules) is written from the specifications and consumes only observed wire messages");
